@@ -90,6 +90,13 @@ HARNESSES = [
       strength="B(buffer <= 16 bytes; complete in contents, positions, distance, length, flat/ring mode)"),
     H("k_apply_match_tiny_buffer", "K-applymatch", ["C03", "C05", "C07", "C08"], fns=["apply_match", "transfer"], cost=70, timeout=900,
       strength="B(buffer <= 8 bytes; complete in contents, positions, distance, length, flat/ring mode)"),
+    # ---- K-vec / K-cvec ----
+    H("k_decompress_to_vec_limit", "K-vec", ["C01", "C03", "C04", "C05", "C08"], fns=["decompress_to_vec_inner", "decompress_error"], cost=40,
+      strength="B(input <= 3 bytes, limit <= 8 => <= 5 growth steps, unwinding assertion on; complete in engine results)",
+      note="decompress replaced by contract model M-decompress"),
+    H("k_compress_to_vec_growth", "K-cvec", ["C01", "C09", "C10"], fns=["compress_to_vec_inner"], cost=60,
+      strength="B(input <= 4 bytes, <= 5 growth steps; complete in level, format, engine results)",
+      note="compress replaced by contract model M-compress (Finish: Done, or Okay with the output buffer filled)"),
     # ---- K-inflate (streaming wrapper against the M-decompress contract model) ----
     H("k_inflate_protocol", "K-inflate", ["C04", "C05", "C06", "C07", "C09", "C13"], fns=["inflate", "inflate_loop", "push_dict_out", "InflateState::new"],
       cost=60, strength="B(in<=3,out<=3 bytes => loop<=8 iterations, unwinding assertion on; complete in wrapper state, flags, flush, engine results)",
